@@ -19,6 +19,9 @@ PubInitsQ == {
   Pub(ZonesQ, [z \in ZonesQ |-> 7], [z \in ZonesQ |-> NoDS]),
   Pub(ZonesQ, [z \in ZonesQ |-> IF z = "p" THEN 3 ELSE 7], [z \in ZonesQ |-> IF z = "c" THEN 1 ELSE NoDS]) }
 AuxNone == {NoAux}
+ZonesOne == {"p"}
+ParentOne == [z \in ZonesOne |-> "root"]
+PubInitsOne == {Pub(ZonesOne, [z \in ZonesOne |-> 7], [z \in ZonesOne |-> NoDS]), Pub(ZonesOne, [z \in ZonesOne |-> 7], [z \in ZonesOne |-> 3])}
 KeysNone == {"tg"}
 ChainNone == <<"tg">>
 =============================================================================
